@@ -268,6 +268,11 @@ def sp_for(cfg):
     extra = {}
     if cfg.get("skew") is not None:
         extra["accepted_time_diff"] = cfg["skew"]
+    if cfg.get("endpoints") in ("post_only", "redirect_only"):
+        # an SP without consumer endpoint for one of the bindings
+        acs = [(S.SP_ACS_POST, S.BINDING_POST)] if cfg["endpoints"] == "post_only" else [(S.SP_ACS_REDIRECT, S.BINDING_REDIRECT)]
+        spopts["endpoints"] = {"assertion_consumer_service": acs,
+                               "single_logout_service": [(S.SP_SLO_REDIRECT, S.BINDING_REDIRECT)]}
     conf = S.sp_config(sp=spopts, **extra)
     sp = S.make_sp(conf)
     if len(_sp_cache) > 64:
@@ -276,7 +281,11 @@ def sp_for(cfg):
     return sp
 
 
-def own_addrs(binding):
+def own_addrs(binding, endpoints="both"):
+    if endpoints == "post_only" and binding != "post":
+        return []
+    if endpoints == "redirect_only" and binding != "redirect":
+        return []
     return {"post": [S.SP_ACS_POST], "redirect": [S.SP_ACS_REDIRECT]}.get(binding, [])
 
 
